@@ -299,6 +299,60 @@ func mixes(s, t TE) bool {
 	return false
 }
 
+// hoisted tells whether u is a union with two or more alternatives of the constructor of c while c
+// has a union as a component: the confrontation Union(C(A), C(B)) versus C(Union(A, B)).
+func hoisted(u, c TE) bool {
+	if u.K != kUnion || len(distComps(c)) == 0 {
+		return false
+	}
+	n := 0
+	for _, a := range u.A {
+		if a.K == c.K {
+			n++
+		}
+	}
+	return n >= 2
+}
+
+// distMixes tells whether comparing s with t confronts a constructor over a union with a union of
+// types of that constructor at corresponding positions (only used for labels); collection = the
+// constructor is List or Map, for which the two are different sets.
+func distMixes(s, t TE) (found, collection bool) {
+	merge := func(f, c bool) {
+		found = found || f
+		collection = collection || c
+	}
+	switch {
+	case hoisted(s, t):
+		return true, t.K == kList || t.K == kMap
+	case hoisted(t, s):
+		return true, s.K == kList || s.K == kMap
+	case s.K == kUnion:
+		for _, a := range s.A {
+			merge(distMixes(a, t))
+		}
+		return
+	case t.K == kUnion:
+		for _, b := range t.A {
+			merge(distMixes(s, b))
+		}
+		return
+	case s.K != t.K:
+		return
+	}
+	for i := 0; i < len(s.A) && i < len(t.A); i++ {
+		merge(distMixes(s.A[i], t.A[i]))
+	}
+	for _, fs := range s.F {
+		for _, ft := range t.F {
+			if fs.L == ft.L {
+				merge(distMixes(fs.T, ft.T))
+			}
+		}
+	}
+	return
+}
+
 // check judges the case; it is a pure function of c and the code under test.
 func check(run *stats.Run, f stats.Failer, c Case) verdict {
 	var v verdict
@@ -330,6 +384,11 @@ func check(run *stats.Run, f stats.Failer, c Case) verdict {
 				labels["has:"+k] = true
 			}
 		}
+		spec.T.walk(func(x TE) {
+			if (x.K == kList && len(mixedLists(x.A[0])) > 0) || (x.K == kMap && len(mixedLists(x.A[1])) > 0) {
+				labels["u:mixed-list-or-map"] = true
+			}
+		})
 	}
 	uvals := buildUniverse(tes)
 	U := make([]ast.Constant, len(uvals))
@@ -367,6 +426,13 @@ func check(run *stats.Run, f stats.Failer, c Case) verdict {
 			if mixes(tes[i], tes[j]) {
 				labels["mix:tuple-vs-pair"] = true
 			}
+			dm, dmColl := distMixes(tes[i], tes[j])
+			if dm {
+				labels["mix:union-distribution"] = true
+			}
+			if dmColl {
+				labels["mix:union-distribution-list-or-map"] = true
+			}
 			ok, pm := conforms(terms[i], terms[j])
 			if pm != "" {
 				run.Failf(f, "no judgement for a pair of well-formed closed type expressions: %s on S = %s, T = %s", pm, c.Types[i], c.Types[j])
@@ -378,6 +444,9 @@ func check(run *stats.Run, f stats.Failer, c Case) verdict {
 			labels["affirmed"] = true
 			if mixes(tes[i], tes[j]) {
 				labels["mix:tuple-vs-pair-affirmed"] = true
+			}
+			if dm {
+				labels["mix:union-distribution-affirmed"] = true
 			}
 			best := -1 // the shortest witness, for the message
 			for k := range U {
@@ -533,6 +602,9 @@ func TestC12(t *testing.T) {
 		}
 		if info.tuplePair {
 			v.labels = append(v.labels, "gen:tuple-vs-pair")
+		}
+		if info.dist {
+			v.labels = append(v.labels, "gen:union-distribution")
 		}
 		run.Case(v.nontrivial, c.hash(), v.labels...)
 		if v.nontrivial {
